@@ -681,7 +681,7 @@ def sample_repr(sc):
 
 
 GROUP_KEYS = ("oracle", "exc", "part", "empty", "drop", "dynamic", "where", "suppress_uttids")
-BUDGET = {"quick": 4000, "thorough": 80000}
+BUDGET = {"quick": 20000, "thorough": 80000}
 WALL_CAP = {"quick": 300, "thorough": 3000}
 RULE = (
     "run i derives a job from sha256(VERIF_SEED/C14/i): loader kind (SpectDataLoader / LangDataLoader / ContextWindowDataLoader over a generated "
